@@ -329,8 +329,32 @@ Definition so_out_of (w : N) : so_out :=
      v_last := N.testbit w 4; v_data := bits w 5 8 |}.
 
 Definition so_mstep (mps depth : nat) (ep : N) (m : so_state) (w : N) : so_state * N :=
-  let i := so_in_of ep w in (so_next mps depth m i, so_out_pack (so_outf mps depth m i)).
+  (* the lock-step targets expose the stream fields masked by stream.valid, so the packed model does the same *)
+  let i := so_in_of ep w in (so_next mps depth m i, so_out_pack (so_norm (so_outf mps depth m i))).
 
 Definition so_menv (mps : nat) (ep : N) (m : so_state) (w : N) : bool := so_env mps m (so_in_of ep w).
 
 Definition so_normN (w : N) : N := so_out_pack (so_norm (so_out_of w)).
+
+(* state packing: bit fields *)
+Definition hcnt_bits (mps : nat) : N := N.size (N.of_nat (S mps)).
+
+Definition so_enc (mps depth : nat) (m : so_state) : N :=
+  let b := fun x : bool => PackN.pk (2 ^ 1) (b2n x) in
+  b (n_tog m) (b (n_ovf m) (b (n_act m) (b (n_nact m) (b (h_tgt m) (b (h_new m) (b (h_fwd m)
+    (PackN.pk (2 ^ cnt_width mps) (n_cnt m) (PackN.pk (2 ^ hcnt_bits mps) (N.of_nat (h_cnt m))
+      (PackN.pk (2 ^ tf_bits2 depth) (tf_enc2 depth (n_ff m)) (bd_enc (n_bd m))))))))))).
+
+Definition so_dec (mps depth : nat) (x : N) : so_state :=
+  let tg := N.land x (N.ones 1) in let x := N.shiftr x 1 in
+  let ov := N.land x (N.ones 1) in let x := N.shiftr x 1 in
+  let ac := N.land x (N.ones 1) in let x := N.shiftr x 1 in
+  let na := N.land x (N.ones 1) in let x := N.shiftr x 1 in
+  let ht := N.land x (N.ones 1) in let x := N.shiftr x 1 in
+  let hn := N.land x (N.ones 1) in let x := N.shiftr x 1 in
+  let hf := N.land x (N.ones 1) in let x := N.shiftr x 1 in
+  let cn := N.land x (N.ones (cnt_width mps)) in let x := N.shiftr x (cnt_width mps) in
+  let hc := N.land x (N.ones (hcnt_bits mps)) in let x := N.shiftr x (hcnt_bits mps) in
+  let f := N.land x (N.ones (tf_bits2 depth)) in let x := N.shiftr x (tf_bits2 depth) in
+  {| n_bd := bd_dec2 x; n_ff := tf_dec2 depth f; n_tog := nb tg; n_ovf := nb ov; n_cnt := cn; n_act := nb ac;
+     n_nact := nb na; h_tgt := nb ht; h_new := nb hn; h_cnt := N.to_nat hc; h_fwd := nb hf |}.
